@@ -296,4 +296,6 @@ def run_control(prop: str, base: Tree):
             r = _run_one((v[0], v[1], v[2], v[3], v[4], v[5], base.files))
             if r[3] == "violation":
                 return (r[0], r[3], r[4])
+            if first[3] == "not_applicable" and r[3] != "not_applicable":
+                first = r
     return (first[0], first[3], first[4])
